@@ -1,4 +1,4 @@
-(* C08, clauses that do NOT hold of the faithful model: witnesses, replayed on the implementation as known findings F-C08-1..3 *)
+(* C08, clauses that do NOT hold of the faithful model: witnesses, replayed on the implementation as known finding F-C08-2 *)
 From H2 Require Import Base.Prelude Model.FsmTypes Gen.Tables Model.Types Model.StreamFSM Proofs.FsmReach Proofs.C0708Proofs.
 
 (* "DATA or END_STREAM before the final headers ... are refused": not on a stream the peer opened *)
@@ -6,10 +6,7 @@ Theorem C08_data_before_final_headers_refuted :
   exists is, let m := run_inputs sm_new is in sm_hs m = false /\ accepted m SI_SEND_DATA = true /\ accepted m SI_SEND_END_STREAM = true.
 Proof. exists [SI_RECV_HEADERS]. vm_compute. repeat split; reflexivity. Qed.
 
-(* "a client can never ... advertise alt-svc": a connection that has not opened a stream yet is in state IDLE whatever its
-   configured role, and IDLE accepts SEND_ALTERNATIVE_SERVICE (and becomes SERVER_OPEN) *)
-Theorem C08_client_altsvc_refuted : conn_transition C_IDLE CI_SEND_ALTERNATIVE_SERVICE = Some C_SERVER_OPEN.
-Proof. reflexivity. Qed.
+(* "a client can never ... advertise alt-svc": the IDLE state of the connection table accepts SEND_ALTERNATIVE_SERVICE whatever
+   the role; advertise_alternative_service checks the role itself since fix 4e7b916 (theorem C24_client_cannot_advertise) *)
 
 Print Assumptions C08_data_before_final_headers_refuted.
-Print Assumptions C08_client_altsvc_refuted.
